@@ -428,6 +428,11 @@ def stepLine (_ : Unit) (ws : List String) : Unit × String :=
     match cfgOf (natOf client) with
     | none => bad i
     | some cfg => ((), i ++ " " ++ runLates cfg (natOf k) shape)
+  | ["stallfrag", i, client, _ms] =>
+    -- how long the pieces of a frame take to arrive is no event of the model: both calls are served
+    match cfgOf (natOf client) with
+    | none => bad i
+    | some cfg => ((), i ++ (if runSeq cfg 2 == "ok 2" then " got own,own" else " bad"))
   | ["knobs", i, client, n] =>
     match cfgOf (natOf client) with
     | none => bad i
